@@ -22,7 +22,7 @@ pub struct Corpus {
 
 impl Corpus {
   pub fn load() -> Corpus {
-    let root = Path::new(crate::engine::VERIF).join("corpus");
+    let root = crate::engine::verif_root().join("corpus");
     let mut out = vec![];
     for li in LANGS {
       let dir = root.join(li.dir);
